@@ -132,6 +132,19 @@ def build_cases(ctx):
     for op in UNOPS:
         for a in arrs:
             cases.append(("un-array", op + "(" + a + ")"))
+    # operator chains written after a parenthesised first operand inside an enclosing group (and after a nested array literal): the
+    # grouping of the chain is the same as without the parentheses
+    chain_ops = ["-", "/", "%", "+", "*", "<<", ">>", ">>>", "<", ">", "<=", ">=", "==", "!=", "===", "!==", "&", "|", "^", "&&", "||", "**", ",", "in", "instanceof"]
+    vals = [("8", "4", "2"), ("100", "10", "5"), ("1", "2", "'x'"), ("3", "2", "1"), ("256", "2", "1"), ("0.1", "0.2", "0.3"), ("'a'", "1", "2"), ("7", "0", "NaN")]
+    for o1 in chain_ops:
+        for o2 in chain_ops:
+            if o1 in ("in", "instanceof") or o2 in ("in", "instanceof") or ("**" in (o1, o2) and o1 != o2):
+                continue
+            for a, b, c in vals[:4] if (len(o1) + len(o2)) % 2 else vals[4:]:
+                tail = " %s %s %s %s" % (o1, b, o2, c)
+                for form in ("((%s)%s)", "(((%s))%s)", "((%s)%s) + 0", "1 * ((%s)%s)", "[[%s][0]%s][0]", "((%s)%s, 5)", "(function () { return ((%s)%s); })()", "[((%s)%s)]"):
+                    cases.append(("chain-after-paren", form % (a, tail)))
+                cases.append(("chain-after-paren", "(%s%s)" % (a, tail)))
     # conditional / short-circuit with every grid value as condition
     for a in GRID:
         cases.append(("cond", spell(a) + " ? 1 : 2"))
